@@ -57,7 +57,7 @@ Over(fg, an, ad, bg) == \* the set of admissible composites (used to enumerate e
 OutFormat(spell) ==
   CASE spell \in {"hex6", "hex3", "hexnohash", "hexupper"} -> "hex"
     [] spell \in {"rgbfn", "rgbpct"} -> "rgbfn"
-    [] spell = "hslfn" -> "hslfn"
+    [] spell \in {"hslfn", "hslodd"} -> "hslfn"
     [] spell \in {"tuple", "list", "tuplesub", "listsub"} -> "tuple"      \* subclasses (named tuples ...) are tuples / lists
     [] spell \in {"named", "rgbafn", "hslafn", "rgbatuple"} -> "hex"
     [] OTHER -> "other"
